@@ -29,7 +29,6 @@ from ..file_writer import deferred_open
 from ..pdb import pdb
 from ..system import System
 from ..processors.processor import Processor
-from ..processors import SortMoleculeAtoms
 from ..selectors import is_protein, selector_has_position, filter_minimal, select_all
 from .. import utils
 from ..log_helpers import StyleAdapter, get_logger
@@ -183,8 +182,15 @@ def run_mdtraj(system):
     """
     sys_copy = system.copy()
     # precaution for large systems; mdtraj requires all residues to be
-    # grouped together otherwise dssp fails
-    SortMoleculeAtoms(target_attr='atomid').run_system(sys_copy)
+    # grouped together otherwise dssp fails. The residues are kept in the
+    # order of Molecule.iter_residues: the secondary structure found is
+    # assigned to them in that order.
+    for molecule in sys_copy.molecules:
+        atomid = 0
+        for residue in list(molecule.iter_residues()):
+            for node_key in sorted(residue, key=lambda key, mol=molecule: mol.nodes[key].get('atomid', 0)):
+                atomid += 1
+                molecule.nodes[node_key]['atomid'] = atomid
     tmpfile_handle, tmpfile_name = tempfile.mkstemp(suffix='.pdb', text=True,
                                                     dir='.', prefix='dssp_in_')
     tmpfile_handle = os.fdopen(tmpfile_handle, mode='w')
